@@ -136,7 +136,7 @@ macro_rules! cdef_h {
     };
 }
 
-// @gen macro=cdef_big name=c19_const_default_big props=C19 quick=U255,255;U256,256 thorough=U1023,1023;U1024,1024;U1025,1025
+// @gen macro=cdef_big name=c19_const_default_big props=C19 quick=U255,255;U256,256 thorough=U1023,1023;U1024,1024
 macro_rules! cdef_big {
     ($name:ident, $N:ty, $n:expr) => {
         #[kani::proof]
